@@ -63,12 +63,13 @@ def main():
         for kind in ("clayton1", "indep", "dep"):
             for (en, ed) in (etas if kind == "clayton1" else [(1, 2)]):
                 key = (kind, en, ed)
-                if key not in shared:
-                    shared[key] = make(kind, 1.0, en / ed)
-                cop = shared[key]
                 hdr = {"kind": f"exact:{kind}:d{d}", "cop": kind, "eta": [en, ed], "d": d, "lat": lat}
                 ev = []
                 try:
+                    # (an admissible parameter the constructor refuses is a recorded exception, not a crash of the driver)
+                    if key not in shared:
+                        shared[key] = make(kind, 1.0, en / ed)
+                    cop = shared[key]
                     tab = []
                     for u in itertools.product(lat, repeat=d):
                         if all(abs(x) == INF for x in u):
@@ -113,12 +114,12 @@ def main():
         for theta in thetas:
             for (en, ed) in etas:
                 key = (theta, en, ed)
-                if key not in shared_q:
-                    shared_q[key] = make("clayton", theta, en / ed)
-                cop = shared_q[key]
                 hdr = {"kind": f"thin:clayton:d{d}", "cop": "clayton", "eta": [en, ed], "d": d, "lat": lat, "theta100": int(round(theta * 100))}
                 ev = []
                 try:
+                    if key not in shared_q:
+                        shared_q[key] = make("clayton", theta, en / ed)
+                    cop = shared_q[key]
                     n = len(lat)
                     flat = []
                     for u in itertools.product(lat, repeat=d):
